@@ -315,6 +315,31 @@ def focused_time_filter(draw, objs):
 
 
 @st.composite
+def focused_presence_filter(draw, objs):
+    """'has this property' / 'has not' for a property that some stored component really has - preferably one whose
+    value is empty or zero (SEQUENCE:0, DESCRIPTION:), which is present all the same."""
+    found = []
+    for o in objs:
+        try:
+            cal = icalref.parse_one(o, "VCALENDAR")
+        except icalref.ParseError:
+            continue
+        for c in cal.children:
+            for p in c.props:
+                if p.name in ("BEGIN", "END"):
+                    continue
+                found.append((c.name, p.name, p.value))
+    if not found:
+        return None
+    falsy = [f for f in found if f[2] in ("", "0")]
+    comp, pn, _ = draw(st.sampled_from(falsy if falsy and draw(st.integers(0, 2)) else found))
+    pf = {"name": pn}
+    if draw(st.booleans()):
+        pf["is_not_defined"] = True
+    return {"name": "VCALENDAR", "comps": [{"name": comp, "props": [pf]}]}
+
+
+@st.composite
 def focused_text_filter(draw, objs):
     """The plain 'search by text' query of a client: one comp-filter, one prop-filter, one text-match whose
     needle comes from a value that exists in the collection (preferably one with escaped characters)."""
@@ -432,6 +457,10 @@ def gen_case(draw):
         top["props"] = [draw(st.sampled_from([{"name": "VERSION"}, {"name": "CALSCALE"}, {"name": "CALSCALE", "is_not_defined": True}, {"name": "PRODID", "text_match": {"text": "xv", "collation": None, "negate": False}}]))]
     if draw(st.integers(0, 4)) == 0:
         ff = draw(focused_text_filter(objs))  # the plain search-by-text query, needle around an escaped character
+        if ff is not None:
+            top = ff
+    elif draw(st.integers(0, 5)) == 0:
+        ff = draw(focused_presence_filter(objs))
         if ff is not None:
             top = ff
     elif draw(st.integers(0, 4)) == 0:
